@@ -20,7 +20,7 @@ EXPLANATION = (
     "(not is antitone) and O very(x) <= x <= somewhat(x), through the sign of factored differences (a*sqrt(A)+b via a^2*A-b^2, "
     "interval arithmetic as a fallback); I the inverse pairs very/somewhat and extremely/seldom and the involution not(not(x)) = x, "
     "by composing the resolved terms. Violations are definite disagreements only; proven / undecided counts are reported. "
-    "Elementwise safety is C02/V1"
+    "Elementwise safety is C02/V1; operators only after scalar() coercion, no re-interpreting views (V8); kernels are pure (K1)"
 )
 ASSUMPTIONS = ["real arithmetic (rounding not modelled); degrees in [0,1]; the transcription of the documented formulas in HEDGES is faithful"]
 LEVEL_SCOPE = ("Decides the listed clauses for every order type (piece) over real arithmetic, reporting only definite disagreements; floating-point "
